@@ -77,6 +77,13 @@ func c11Run(e *Env) {
 	parks := t.Choose(4)
 	allowClose := t.Chance(1, 5)
 	allowDup := IsDatagram(tr) && t.Chance(1, 3)
+	// the request slots of the configuration: off / NSTART 16 in half of the runs, the defaults (one request at a time,
+	// NSTART 1) or two at a time in the others
+	slots := []int64{0, 0, 1, 2}[t.Choose(4)]
+	nstart := uint32(16)
+	if slots == 1 {
+		nstart = 1
+	}
 
 	var ins []*c11In
 	ownMIDCollision := false
@@ -186,16 +193,17 @@ func c11Run(e *Env) {
 	}))
 	if IsDatagram(tr) {
 		cfg := SimUDPConfig(int32(t.Choose(65536)))
-		cfg.TransmissionNStart = 16
+		cfg.TransmissionNStart = nstart
 		cfg.TransmissionAcknowledgeTimeout = 2 * time.Second
 		cfg.ReceivedMessageQueueSize = qsize
 		cfg.BlockwiseEnable = false
+		cfg.LimitClientParallelRequests, cfg.LimitClientEndpointParallelRequests = slots, slots
 		options.WithMux(router).UDPClientApply(&cfg)
 		w = NewCWorld(e, CWorldCfg{Transport: tr, UDP: cfg})
 	} else {
 		w = NewCWorld(e, CWorldCfg{Transport: tr, TCPOpts: []tcp.Option{
 			options.WithMux(router), options.WithReceivedMessageQueueSize(qsize), options.WithCloseSocket(),
-			options.WithLimitClientParallelRequest(0), options.WithLimitClientEndpointParallelRequest(0),
+			options.WithLimitClientParallelRequest(slots), options.WithLimitClientEndpointParallelRequest(slots),
 		}})
 	}
 	if w == nil {
@@ -214,7 +222,7 @@ func c11Run(e *Env) {
 	}
 	e.Wait()
 	w.Pump()
-	e.Logf("cfg transport=%s queue=%d msgs=%d onlyFast=%v parks=%d close=%v dup=%v", tr, qsize, nMsgs, onlyFast, parks, allowClose, allowDup)
+	e.Logf("cfg transport=%s queue=%d msgs=%d onlyFast=%v parks=%d close=%v dup=%v slots=%d nstart=%d", tr, qsize, nMsgs, onlyFast, parks, allowClose, allowDup, slots, nstart)
 
 	// nested operations seen by the peer: nonce 1000+n -> answer item
 	answerOf := map[*OutItem]*c11In{}
